@@ -85,6 +85,13 @@ class Expression:
                 method = out.YIELD if is_generator else out.RETURN
                 method((STATUS, RESULT, POS))
 
+                # The caller delegates with "yield from" whenever the expression
+                # mentions other rules. Some expressions never get to call them
+                # (for example "x{0}"), so make sure the helper function is a
+                # generator in that case, too.
+                if not is_generator and self._contains_yield():
+                    out += Code('yield')
+
         return Code(name), [Code(x) for x in params]
 
     def freevars(self):
